@@ -9,6 +9,7 @@ import Xrl.Spec.Cascade
 import Xrl.Spec.JumpRatio
 import Xrl.Spec.Sums
 import Xrl.Spec.Interp2
+import Xrl.Spec.LBeta
 /-!
 # `spec.*` operations of the driver: the executable specifications in the `Float` reading
 
@@ -85,6 +86,7 @@ def dispatchSpec (T : Tables Float) (fn : String) (a : Array String) : Option St
   | "spec.CS_Photo_Total", 2 => some (fmtE (Spec.CS_Photo_Total T (pI a[0]!) (pF a[1]!)))
   | "spec.CS_Total_Kissel", 2 => some (fmtE (Spec.CS_Total_Kissel T (pI a[0]!) (pF a[1]!)))
   | "spec.CSb_Total_Kissel", 2 => some (fmtE (Spec.CSb_Total_Kissel T (pI a[0]!) (pF a[1]!)))
+  | "spec.LineEnergyLB", 1 => some (fmtE (Spec.LineEnergyLB T (pI a[0]!)))
   | "spec.weightFailures", 0 => some ("shape " ++ toString ((Spec.weightFailures T).map (fun p => p.1 ++ ":" ++ toString p.2)))
   | "spec.shapeFailures2", 0 => some ("shape " ++ toString ((Spec.shapeFailures2 T).map (fun p => p.1 ++ ":" ++ toString p.2.1 ++ ":" ++ toString p.2.2)))
   | _, _ => none
